@@ -17,6 +17,45 @@ def liveAfter (r : Router) (L : List LiveT) : Call → List LiveT
       if mismatchOf r.root t ts = none ∧ ts.any (fun e => (Node.find r.root e.2).isNone) = false
       then L.filter (fun lt => lt.template != t) else L
     | .error _ => L
+  | .clone => L
+
+/-- infoOK does not look at the cell -/
+theorem infoOK_of_erase {lt : LiveT} {e : Bytes × List Part} {i j : Info} (h : eraseCell i = eraseCell j) (hi : infoOK lt e i) :
+    infoOK lt e j := by
+  have ht : i.template = j.template := (by simpa [eraseCell] using congrArg Info.template h)
+  have hd : i.data = j.data := (by simpa [eraseCell] using congrArg Info.data h)
+  have he : i.expanded = j.expanded := (by simpa [eraseCell] using congrArg Info.expanded h)
+  have hde : i.depth = j.depth := (by simpa [eraseCell] using congrArg Info.depth h)
+  have hl : i.length = j.length := (by simpa [eraseCell] using congrArg Info.length h)
+  obtain ⟨h1, h2, e', h3, h4, h5, h6⟩ := hi
+  exact ⟨ht ▸ h1, hd ▸ h2, e', h3, he ▸ h4, hde ▸ h5, hl ▸ h6⟩
+
+/-- the registry invariant survives `Clone` -/
+theorem Reg.clone {r : Router} {L : List LiveT} (h : Reg r.root L) : Reg r.clone.root L where
+  shp := (recell_Shp r.root 0).2 h.shp
+  parsed := h.parsed
+  sound := by
+    intro P i hwf hf
+    have hc := Router.clone_find r P
+    rw [hf] at hc
+    cases hf0 : Node.find r.root P with
+    | none => rw [hf0] at hc; cases hc
+    | some j =>
+      rw [hf0] at hc
+      simp only [Option.map_some, Option.some.injEq] at hc
+      obtain ⟨lt, hlt, e, he, hk, hok⟩ := h.sound P j hwf hf0
+      exact ⟨lt, hlt, e, he, hk, infoOK_of_erase hc.symm hok⟩
+  complete := by
+    intro lt hlt e he
+    obtain ⟨j, hf0, hok⟩ := h.complete lt hlt e he
+    have hc := Router.clone_find r e.2
+    rw [hf0] at hc
+    cases hf : Node.find r.clone.root e.2 with
+    | none => rw [hf] at hc; cases hc
+    | some i =>
+      rw [hf] at hc
+      simp only [Option.map_some, Option.some.injEq] at hc
+      exact ⟨i, rfl, infoOK_of_erase hc.symm hok⟩
 
 theorem reg_step {r : Router} {L : List LiveT} (h : Reg r.root L) (c : Call) :
     Reg (r.step c).root (liveAfter r L c) := by
@@ -52,6 +91,7 @@ theorem reg_step {r : Router} {L : List LiveT} (h : Reg r.root L) (c : Call) :
         · have hany' : ts.any (fun e => (Node.find r.root e.2).isNone) = false := by simpa using hany
           simp only [hany', Bool.false_eq_true, ite_false, and_self, ite_true]
           exact Reg.delete h hp hm
+  | clone => exact Reg.clone h
 
 /-- router and live templates along a history -/
 def runLive : Router → List LiveT → List Call → Router × List LiveT
